@@ -81,7 +81,8 @@ loop:
 		}
 
 		// Get the fields for the next value:
-		availableFields, err := getAvailableFieldsForValue(cuePathValue, blockedRootFields)
+		// these are fields below the root, which the blocked list (of root fields) does not concern
+		availableFields, err := getAvailableFieldsForValue(cuePathValue, nil)
 		if err != nil {
 			return errFunc(fmt.Errorf("couldn't get fields for struct type to build filters: %w", err))
 		}
